@@ -118,6 +118,8 @@ class Interp:
         self.bodies = db.bodies
         self.counter = itertools.count(1)
         self.phi_facts = {}       # pid-prefix (frame, block) -> {pred: frozenset(facts)}
+        self.range_ends = {}      # result term of a Range::next call -> the range's `end` when it was called
+        self.range_local_end = {} # (frame, local) of a `for i in s..e` iterator -> (blocks of its loop, e)
         self.discr_tables = {}
         self.inline = inline
         self.refute_panic_edges = refute_panic_edges
@@ -721,6 +723,8 @@ class Interp:
                 out.add(('nooverflow', 'mul', v[2], v[3]))
             if v[0] == 'app' and v[1] == 'nonnull_new':
                 out.add(('ne', C(0), v[2]) if n == 'Some' else ('eq', C(0), v[2]))
+            if v[0] == 'call' and n == 'Some' and v in self.range_ends:
+                out.add(('lt', ('app', 'vproj', v, 'Some', '0'), self.range_ends[v]))
             if v[0] == 'app' and v[1] == 'opt_map':
                 out |= self.variant_facts(st, v[2], {n}, depth + 1)
         else:
@@ -1059,6 +1063,64 @@ class Interp:
                 del out.mem[k]
         return out, ret
 
+    @staticmethod
+    def _locals_in(j, out):
+        if isinstance(j, dict):
+            if 'l' in j and 'proj' in j:
+                out.append(j['l'])
+            for v in j.values():
+                Interp._locals_in(v, out)
+        elif isinstance(j, list):
+            for v in j:
+                Interp._locals_in(v, out)
+
+    def _only_range_next(self, body, loop_blocks, l):
+        """inside the loop, local l is used only as `tmp = &mut l; Range::next(move tmp)`"""
+        from .stdmodel import RANGE_NEXT
+        tmps = set()
+        for b in loop_blocks:
+            for s in body['blocks'][b]['stmts']:
+                if s['k'] == 'assign' and s['rv']['k'] in ('ref', 'rawptr') and s['rv']['place']['l'] == l and not s['rv']['place']['proj'] and not s['place']['proj']:
+                    tmps.add(s['place']['l'])
+        if not tmps:
+            return False
+
+        def reborrow(s):
+            return s['k'] == 'assign' and s['rv']['k'] in ('ref', 'rawptr') and s['rv']['place']['l'] in tmps and [e['k'] for e in s['rv']['place']['proj']] == ['deref'] and not s['place']['proj']
+        for _ in range(3):
+            for b in loop_blocks:
+                for s in body['blocks'][b]['stmts']:
+                    if reborrow(s):
+                        tmps.add(s['place']['l'])
+        for b in loop_blocks:
+            blk = body['blocks'][b]
+            for s in blk['stmts']:
+                if s['k'] == 'assign' and s['place']['l'] in tmps and s['rv']['k'] in ('ref', 'rawptr') and s['rv']['place']['l'] == l:
+                    continue
+                if reborrow(s):
+                    continue
+                used = []
+                self._locals_in(s, used)
+                if l in used or tmps & set(used):
+                    if s['k'] in ('storage_live', 'storage_dead', 'nop'):
+                        continue
+                    return False
+            t = blk['term']
+            used = []
+            self._locals_in(t, used)
+            if l in used or tmps & set(used):
+                if t['k'] != 'call':
+                    return False
+                c = t['callee']
+                path = (c.get('resolved') or {}).get('path') or c.get('path')
+                if path != RANGE_NEXT:
+                    return False
+                argl = []
+                self._locals_in(t['args'], argl)
+                if l in argl or not (set(argl) <= tmps):
+                    return False
+        return True
+
     def widen(self, st, fid, body, loop_blocks, header):
         assigned = set()
         writes_mem = False
@@ -1100,6 +1162,14 @@ class Interp:
             if key in st.env and l in addr_only and st.env[key][0] == 'agg' and st.env[key][1].startswith('iter:'):
                 # a modelled iterator value is a description (source, closures); what advances is the state its closures capture
                 continue
+            if key in st.env and l in addr_only and self._only_range_next(body, loop_blocks, l):
+                # `for i in s..e`: inside the loop the iterator local is only ever handed to Range::next, which moves `start`
+                # and never writes `end`: values it yields in this loop lie below the `end` it had before the loop
+                v0 = st.env[key]
+                if v0[0] == 'call' and v0[1].endswith('IntoIterator>::into_iter') and len(v0[2]) == 1:
+                    v0 = v0[2][0]       # the blanket impl for iterators returns self
+                if v0[0] == 'agg' and v0[1].endswith('Range') and field_of(v0, 'end') is not None:
+                    self.range_local_end[(fid, l)] = (frozenset(loop_blocks), field_of(v0, 'end'))
             if key in st.env:
                 nv = ('opaque', next(self.counter), 'loop%s:_%s' % (header, l))
                 rec['init'][l] = st.env[key]
@@ -1239,7 +1309,7 @@ class Interp:
                     return 'proved %s == %s' % (show(f[1])[:40], show(f[2])[:40])
                 if k == 'ne':
                     for a, b in ((f[1], f[2]), (f[2], f[1])):
-                        if is_c(b) and b[1] == 0 and a[0] == 'app' and a[1] == 'mod' and P.aligned(a[2], a[3]):
+                        if is_c(b) and b[1] == 0 and a[0] == 'app' and a[1] == 'mod' and (P.aligned(a[2], a[3]) or P.eq(('app', 'round_down', a[2], a[3]), a[2])):
                             return 'proved %s aligned to %s' % (show(a[2])[:40], show(a[3])[:20])
                 if k == 'eq' and (P.lt(f[1], f[2]) or P.lt(f[2], f[1])):
                     return 'proved %s != %s' % (show(f[1])[:40], show(f[2])[:40])
@@ -1288,6 +1358,12 @@ class Interp:
             target = res['path']
         ev = self.event('call', st, fid, bi, span, callee=CALLEE_ALIAS.get(target, target), args=args, extra={'callee': c, 'exp': t.get('exp'), 'trait_path': path, 'raw_callee': target})
         r = self.call_target(st, fid, bi, t, c, path, target, args)
+        if target.endswith('core::ops::range::Range<A>>::next') and args and isinstance(r, tuple) and r and r[0] == 'call':
+            a0 = args[0]
+            if a0[0] == 'addr' and a0[1][0] == 'local' and (a0[1][1], a0[1][2]) in self.range_local_end:
+                blocks, end = self.range_local_end[(a0[1][1], a0[1][2])]
+                if a0[1][1] == fid and bi in blocks:
+                    self.range_ends[r] = end
         ev.ret = r
         return r
 
